@@ -51,6 +51,9 @@ quiet("c14-defer-unlock-in-sethandler", "C14", ("agent.go", """func (a *Agent) S
 
 		return ErrAgentClosed
 	}
+	if h == nil {
+		h = NoopHandler()
+	}
 	a.handler = h
 	a.mux.Unlock()
 
@@ -59,6 +62,9 @@ quiet("c14-defer-unlock-in-sethandler", "C14", ("agent.go", """func (a *Agent) S
 	defer a.mux.Unlock()
 	if a.closed {
 		return ErrAgentClosed
+	}
+	if h == nil {
+		h = NoopHandler()
 	}
 	a.handler = h
 
